@@ -133,7 +133,7 @@ func Schemata(p *core.Prog, r *core.Report) {
 	r.Count("schemata_carry_over_loops", nCarry)
 	r.Floor("schemata_carry_over_loops", 2)
 	r.Count("schemata_accessor_writes", nAcc)
-	r.Floor("schemata_accessor_writes", 4)
+	r.Floor("schemata_accessor_writes", 3)
 	r.Count("schemata_list_stores", nSt)
 	r.Floor("schemata_list_stores", 8)
 	// appended entries carry cloned schemata
@@ -167,7 +167,7 @@ func Schemata(p *core.Prog, r *core.Report) {
 		})
 	}
 	r.Count("schemata_entries_appended", nApp)
-	r.Floor("schemata_entries_appended", 5)
+	r.Floor("schemata_entries_appended", 3)
 
 	// (b) an absent member with a default is recorded, unless schemata are switched off
 	if f := p.Func("(*objectValidator).validatePropertiesSchema"); f != nil {
